@@ -11,6 +11,8 @@ def obligations(tier):
               bounds="4 lines x 3 kinds, arbitrary (overlapping) acceptance; exactly-one-list, one warning per rejected line, locality"),
            Ob("C14.rx.disjoint", "PY", "vf.rx_props", "c14", 300, funcs=("chartparse.sync.*.ParsedData._regex", "chartparse.instrument.*.ParsedData._regex"),
               bounds="all strings: 6 pairwise emptiness queries")]
+    obs.append(Ob("C14.many_unparsable", "CH", "harness.h_extra", "many_unparsable", 900, funcs=(TR + "parse_data_from_chart_lines", "chartparse.exceptions.RegexNotMatchError"),
+                  bounds="blocks of 1, 2, 24, 25, 26, 100, 1000 identical unparsable lines of 8 shapes (braces included) at any of 5 positions: parsed track unchanged, one warning each"))
     obs.append(Ob("C14.framing", "CH", "harness.h_chart", "framing", 300, funcs=("chartparse.chart.Chart._partition_lines_by_data_section",),
                   bounds="an unparsable body line of any content (header-like lines included) stays a body line of its own section"))
     obs.append(Ob("C14.history", "CH", "harness.h_track", "dispatcher_history", 600, funcs=(TR + "parse_data_from_chart_lines",),
